@@ -3,7 +3,10 @@
 set -e
 cd "$(dirname "$0")/.."
 export CARGO_NET_OFFLINE=true
-(cd lean && lake build)
 ln -sfn "${PXV_REPO:-/repo}" .repo
+(cd lean && lake build)
 (cd harness && cargo build --workspace)
+# what `pavexc generate` needs offline (std JSON docs + rustup shim), and the hooked compiler itself
+bash tools/px_toolchain.sh
+(cd harness && cargo build --manifest-path ../.repo/compiler/pavexc_cli/Cargo.toml --target-dir target-pavexc)
 echo setup-ok
